@@ -89,7 +89,7 @@ Section C08.
     (forall x, delta r false (delta r true x) = x) ->
     forall origin prem cells e,
     aggregate_period wavg rules nl (Some r) origin prem cells = Err e ->
-    (e = IndexError /\ cells = []) \/ e = TriangleError \/ e = OtherError \/
+    e = TriangleError \/ e = OtherError \/
     (exists relabelled, map_result (window_cell wavg rules nl prem) (groupby coord_eqb coord3 relabelled) = Err e).
   Proof. exact (aggregate_period_errors wavg rules nl). Qed.
   (* a period that reaches beyond the window holding its start is refused with TriangleError *)
@@ -125,6 +125,12 @@ Section C08.
   (* re-labelling and sorting keep evaluation dates and values, hence the per-evaluation totals *)
   Theorem C08_sort_conserves : forall (f : cell -> Z) l, zsum (map f (sort_coords l)) = zsum (map f l).
   Proof. exact sort_coords_sum. Qed.
+
+  (* a slice emptied by the evaluation grid, and the empty triangle, aggregate to nothing (F24, F22) *)
+  Theorem C08_empty_slice : forall r origin prem, aggregate_period wavg rules nl r origin prem [] = Ok [].
+  Proof. exact (aggregate_period_empty wavg rules nl). Qed.
+  Theorem C08_empty_triangle : forall a, aggregate wavg rules nl a [] = Ok [].
+  Proof. exact (aggregate_empty wavg rules nl). Qed.
 
   Theorem C08_eval_only : forall a slice, period_res a = None ->
     aggregate_slice wavg rules nl a slice = aggregate_eval (eval_res a) (eval_origin a) slice.
